@@ -110,6 +110,22 @@ def run_once(case, outdir, clock, tag):
             s.text = texts[(ti + case["world"]) % len(texts)]
             o = s.run(inp)
             obs.append((f"utter#{ti}", tok(repr((o["line"], o["raised"])).encode())))
+        # the same engine state driven through the multi-agent batch driver (its sequential path: one real
+        # run_turn per task on a per-agent clone of the driver's context, which carries the logical clock)
+        import clematis.engine.orchestrator.parallel as par
+        cur["sched"] = False
+        base = len(case["h"])
+        for rnd in range(2):
+            cfg = E.validated_cfg(s.cfg_for({}))
+            dctx = E.mk_ctx(cfg, "driver", base + rnd + 1, now_ms=E.NOW_MS + (base + rnd + 1) * 1000)
+            tasks = [(a, texts[(rnd + k + case["world"]) % len(texts)]) for k, a in enumerate(agents)]
+            with E.LogCapture(write_through=True, log_dir=s.log_dir), E.patched_time(ClockTime(steps=(0.0,))):
+                try:
+                    res = par._run_agents_parallel_batch(dctx, s.state, tasks)
+                    line = [getattr(r, "line", None) for r in res]
+                except Exception as e:      # noqa
+                    line = f"{type(e).__name__}: {e}"
+            obs.append((f"batch#{rnd}", tok(repr(line).encode())))
     finally:
         TR.E.FakeTime = orig_fake
     dd = d.encode()
@@ -127,7 +143,32 @@ def run_once(case, outdir, clock, tag):
     return obs
 
 
+WALL_DATES = {"zero": None, "huge": (2031, 3, 3), "random": (2025, 12, 24)}
+
+
+def install_wall_clock(clock):
+    """the wall-clock DATE is a nuisance too: datetime.now()/utcnow() report another day (installed before
+    the engine is imported; the logical clock of the turns is unchanged)"""
+    ymd = WALL_DATES.get(clock)
+    if ymd is None:
+        return
+    import datetime as _dt
+    real = _dt.datetime
+    fixed = real(*ymd, 23, 59, 30, tzinfo=_dt.timezone.utc)
+
+    class _WallClock(real):
+        @classmethod
+        def now(cls, tz=None):
+            return fixed.astimezone(tz) if tz is not None else fixed.replace(tzinfo=None)
+
+        @classmethod
+        def utcnow(cls):
+            return fixed.replace(tzinfo=None)
+    _dt.datetime = _WallClock
+
+
 def main():
+    install_wall_clock(sys.argv[3])
     case = json.load(open(sys.argv[1]))
     outdir = sys.argv[2]
     clock = sys.argv[3]
